@@ -40,9 +40,10 @@ class Cmp:
         self.rel_only = 0          # float cells inside ftol*max(1,|a|) but outside ftol*|a|
         self.cells = 0
 
-    def add(self, clause, where, a=None, b=None):
+    def add(self, clause, where, a=None, b=None, raw=None):
         if len(self.diffs) < self.max_diffs:
-            self.diffs.append({"clause": clause, "where": where, "a": _short(a), "b": _short(b), "_a": a, "_b": b})
+            ra, rb = raw if raw is not None else (a, b)
+            self.diffs.append({"clause": clause, "where": where, "a": _short(a), "b": _short(b), "_a": ra, "_b": rb})
 
     # ---------------------------------------------------------------- scalars
     def scalar(self, a, b, where, clause="value"):
@@ -55,7 +56,7 @@ class Cmp:
             return False
         if isinstance(a, (bool, np.bool_)) or isinstance(b, (bool, np.bool_)):
             if not (isinstance(a, (bool, np.bool_)) and isinstance(b, (bool, np.bool_))):
-                self.add("cell_type", where, "%s:%r" % (type(a).__name__, a), "%s:%r" % (type(b).__name__, b))
+                self.add("cell_type", where, "%s:%r" % (type(a).__name__, a), "%s:%r" % (type(b).__name__, b), raw=(a, b))
                 return False
             if bool(a) != bool(b):
                 self.add(clause, where, a, b)
@@ -63,7 +64,7 @@ class Cmp:
             return True
         if isinstance(a, str) or isinstance(b, str):
             if not (isinstance(a, str) and isinstance(b, str)):
-                self.add("cell_type", where, "%s:%r" % (type(a).__name__, a), "%s:%r" % (type(b).__name__, b))
+                self.add("cell_type", where, "%s:%r" % (type(a).__name__, a), "%s:%r" % (type(b).__name__, b), raw=(a, b))
                 return False
             if a != b:
                 self.add(clause, where, a, b)
@@ -80,7 +81,7 @@ class Cmp:
             if a_int != b_int:
                 # int vs float of the same value: a type change of the cell
                 if float(a) == float(b) and (not a_int or abs(int(a)) < 2 ** 53) and (not b_int or abs(int(b)) < 2 ** 53):
-                    self.add("cell_type", where, "%s:%r" % (type(a).__name__, a), "%s:%r" % (type(b).__name__, b))
+                    self.add("cell_type", where, "%s:%r" % (type(a).__name__, a), "%s:%r" % (type(b).__name__, b), raw=(a, b))
                 else:
                     self.add(clause, where, a, b)
                 return False
@@ -124,7 +125,7 @@ class Cmp:
                 return False
             return True
         if type(a) is not type(b):
-            self.add("cell_type", where, "%s:%r" % (type(a).__name__, a), "%s:%r" % (type(b).__name__, b))
+            self.add("cell_type", where, "%s:%r" % (type(a).__name__, a), "%s:%r" % (type(b).__name__, b), raw=(a, b))
             return False
         try:
             same = bool(a == b)
@@ -168,7 +169,7 @@ class Cmp:
         return self.mapping(vars(a), vars(b), where, clause)
 
     # ---------------------------------------------------------------- pandas
-    def index(self, a, b, where, order=True):
+    def index(self, a, b, where, order=True, name=True):
         ok = True
         if isinstance(a, pd.MultiIndex) != isinstance(b, pd.MultiIndex):
             self.add("index", where + ".index.class", type(a).__name__, type(b).__name__)
@@ -185,7 +186,7 @@ class Cmp:
         if str(a.dtype) != str(b.dtype):
             self.add("index_dtype", where + ".index.dtype", a.dtype, b.dtype)
             ok = False
-        if a.name != b.name:
+        if name and a.name != b.name:
             self.add("index_name", where + ".index.name", a.name, b.name)
             ok = False
         la, lb = a.tolist(), b.tolist()
@@ -199,9 +200,9 @@ class Cmp:
                 ok = False
         return ok
 
-    def frame(self, a, b, where, only_columns=None, cell_filter=None, dtypes=True):
+    def frame(self, a, b, where, only_columns=None, cell_filter=None, dtypes=True, index_name=True):
         """a: original, b: loaded.  cell_filter(col, value) -> False to skip a cell (not representable)."""
-        ok = self.index(a.index, b.index, where)
+        ok = self.index(a.index, b.index, where, name=index_name)
         ca, cb = list(a.columns), list(b.columns)
         if only_columns is not None:
             ca = [c for c in ca if c in only_columns]
